@@ -207,6 +207,11 @@ STD_CONSTS['u64::MAX'] = lambda ex: Sc(I(U64_MAX), 'u64')
 STD_CONSTS['i64::MAX'] = lambda ex: Sc(I(I64_MAX), 'i64')
 STD_CONSTS['i64::MIN'] = lambda ex: Sc(I(I64_MIN), 'i64')
 STD_CONSTS['u32::MAX'] = lambda ex: Sc(I(2 ** 32 - 1), 'u32')
+for _nm, _code in (('CONTINUE', 100), ('OK', 200), ('CREATED', 201), ('ACCEPTED', 202), ('NO_CONTENT', 204), ('PARTIAL_CONTENT', 206),
+                   ('MOVED_PERMANENTLY', 301), ('FOUND', 302), ('NOT_MODIFIED', 304), ('TEMPORARY_REDIRECT', 307), ('BAD_REQUEST', 400),
+                   ('UNAUTHORIZED', 401), ('FORBIDDEN', 403), ('NOT_FOUND', 404), ('TOO_MANY_REQUESTS', 429),
+                   ('INTERNAL_SERVER_ERROR', 500), ('BAD_GATEWAY', 502), ('SERVICE_UNAVAILABLE', 503), ('GATEWAY_TIMEOUT', 504)):
+    STD_CONSTS['StatusCode::' + _nm] = (lambda c: (lambda ex: Tree({0: Sc(I(c), 'u16')}, None, 'http::StatusCode')))(_code)
 
 
 @model('Duration::from_secs')
@@ -748,7 +753,7 @@ def call_fnlike(ex, st, f, argvals, cont, dty=None):
             except Fork as fk:
                 raise Fork([(c, (lambda k: (lambda s: cont(ex, s, k(s))))(k)) for c, k in fk.alts])
             return cont(ex, st, r)
-        d = ex.find_def(canon[0], nargs=len(argvals))
+        d = ex.find_def(canon[0], canon[1], canon[2], len(argvals))
         if d is None and canon[3] == 'from' and canon[2] and canon[1]:
             import smodels
             ta = type_args(canon[2])
@@ -958,6 +963,44 @@ def m_option_copied(ex, st, args, dty, canon):
         if i == 1:
             return some(deref(ex, s, payload(ex, s, v, 1, 0)))
         return none()
+    fork_on(cases, f)
+    return f(st, cases[0][1])
+
+
+INT_BITS_ = ('u8', 'u16', 'u32', 'u64', 'u128', 'usize', 'i8', 'i16', 'i32', 'i64', 'i128', 'isize')
+
+
+def default_value(ex, ty):
+    ty = (ty or '').strip()
+    if ty in INT_BITS_:
+        return Sc(I(0), ty)
+    if ty == 'bool':
+        return Sc(z3.BoolVal(False), 'bool')
+    if ty.endswith('Duration'):
+        return mk_dur(I(0), I(0))
+    if ty in ('String', 'std::string::String', '&str'):
+        return Sc(z3.StringVal(''), 'str')
+    if ty.startswith(('Option<', 'std::option::Option<')):
+        return none()
+    if ty == '()':
+        return UNIT
+    raise Inconclusive('default value of type %s' % ty)
+
+
+@pattern(r'^(std::)?(result::)?Result::<.*>::unwrap_or_default$|^(std::)?(option::)?Option::<.*>::unwrap_or_default$')
+def m_unwrap_or_default_any(ex, st, args, dty, canon):
+    v = args[0]
+    is_res = 'Result::<' in canon[4]
+    good = 0 if is_res else 1
+    dflt = default_value(ex, dty)
+    pv = payload(ex, st, v, good, 0, dty)
+    if isinstance(pv, Sc) and isinstance(dflt, Sc):
+        d = ex.discr_of(st, v).t
+        return Sc(z3.If(d == good, pv.t, dflt.t), pv.ty)
+    cases = enum_cases(ex, st, v, 2)
+
+    def f(s, i):
+        return payload(ex, s, v, good, 0, dty) if i == good else dflt
     fork_on(cases, f)
     return f(st, cases[0][1])
 
